@@ -30,8 +30,8 @@ TECH = [
      'Bounded: tree -> text for every tree (_translate_tree), the signs a leaf collects, literal -> double. Trusted: L-SUBST, L-OPG, CPython ast.'),
     ('C02', K1T + 'K2 exhaustive column-letter check; schema contracts on the reference translators; bounded monitor for the reference regexes',
      'Bounded: the three reference regexes (back-references), A:C areas. Trusted: R-VIEW list model, prelude.'),
-    ('C03', K1T + 'structural single-producer and marker-discipline obligations; bounded differential monitor (entry-point vs whole-file, cycles)',
-     'Bounded: faithfulness and cycle rejection over graph shapes. PARAM not mechanised.'),
+    ('C03', K1T + 'Context.get_cell / set_cell, CellTranslator._set_cell_to_context / translate / translate_file over an abstract formula translator (every reference names a registered uid; whole-file translation registers every listed cell); structural single-producer and marker-discipline obligations; bounded differential monitors (entry-point vs whole-file, cycles, far cells)',
+     'Bounded: faithfulness and cycle rejection over graph shapes. Assumed: Excel.get_cells returns fresh, filled Cell objects (C02 / C18).'),
     ('C04', K1T + 'chain set_cells -> flush -> set_arguments -> _cell_preprocessor -> get_cell; bounded history monitor',
      'Assumes A-ALIAS; set_cells proved for normalised identifiers (normalisation = handle_cell contract).'),
     ('C05', K1T + 'CompositeBaseToken.get / _get (ordered-choice parser: consumed prefix, leaves in order, shape of a token set; own contract as induction hypothesis, two lemmas proved by induction) and AstBuilder.parse; K2 lexer progress / no left recursion on the real grammar data; bounded monitor for the regex lexer',
